@@ -9,6 +9,8 @@ C04 setup fresnel|angular nx ny dx dy lam z n q s
 C04 tf ix iy      -> ok turns=[…]   (fresnel: sub-sample phases in turns mod 1)
                    | ok rad=[…] evz=… evzold=…   (angular: sub-sample radicands (n/λ)² - ν²; decay distance of
                                                    evanescent components, repaired and unrepaired code)
+C04 ir jy         -> ok amp=… turns=[…] (fresnel) | ok r2=[…] (angular): impulse response on row jy of the
+                      enlarged grid, for jx = 0..Mx-1 and all s² dithers (x dither fastest)
 ```
 -/
 namespace HcipyVerif.Driver.C04
@@ -50,6 +52,16 @@ def step (st : St) : List String → St × String
       | .angular => (st, s!"ok rad={showRatList (angularSubRadicands p ix iy)} evz={showRat (evanescentZ p)} evzold={showRat (evanescentZOld p)}")
     | none, some _, some _ => (st, "err value")
     | _, _, _ => (st, "bad-op")
+  | ["ir", jy] =>
+    match st.p, parseNat? jy with
+    | some p, some jy =>
+      if jy ≥ my p then (st, "err index") else
+      if p.z = 0 then (st, "err value") else
+      match p.kind with
+      | .fresnel => (st, s!"ok amp={showRat (fresnelIrAmp p)} turns={showRatList (fresnelIrRow p jy)}")
+      | .angular => (st, s!"ok r2={showRatList (angularIrRow p jy)}")
+    | none, some _ => (st, "err value")
+    | _, _ => (st, "bad-op")
   | _ => (st, "bad-op")
 
 end HcipyVerif.Driver.C04
